@@ -656,6 +656,26 @@ func keyshareCommitmentsRule(P *Program, R *Report) {
 	tP := termAtStore(P, fn, fs["P"])
 	k := "arg#1[#i]"
 	r := tsym(desc(gen) + "#0")
+	// one commitment object per key: what is appended for a key is made in that key's iteration (an object looked up by
+	// issuer name and shared between keys carries another key's commitment)
+	okPerKey, nApp := true, 0
+	allInstrs(fn, func(i ssa.Instruction) {
+		c, ok := i.(*ssa.Call)
+		if !ok || !isCallTo(c, "builtin:append") {
+			return
+		}
+		t, okT := seqTail(callArgs(c)[1], 0, map[ssa.Value]bool{})
+		if !okT || len(t) != 1 || t[0].V == nil || !strings.Contains(typeStr(t[0].V.Type()), "ProofPCommitment") {
+			return
+		}
+		nApp++
+		al, isAl := t[0].V.(*ssa.Alloc)
+		l := innermostLoopOf(c.Block())
+		if !isAl || l == nil || !l.Body[al.Block()] {
+			okPerKey = false
+		}
+	})
+	R.decide(rule, kKSCommits+":per-key", "every key gets a commitment object of its own, made in that key's iteration", okPerKey && nApp >= 1, fmt.Sprintf("%d appends", nApp), P.Pos(fn.Pos()))
 	R.decide(rule, kKSCommits+":Pcommit", "Pcommit = R0^randomizer mod N of each key", tp.equal(termFn("Exp", tsym(k+".R[0]"), r, tsym(k+".N"))), "got "+tp.String(), P.Pos(fn.Pos()))
 	R.decide(rule, kKSCommits+":P", "P = R0^secret mod N of each key", tP.equal(termFn("Exp", tsym(k+".R[0]"), tsym("arg#0"), tsym(k+".N"))), "got "+tP.String(), P.Pos(fn.Pos()))
 	okRet := false
